@@ -273,13 +273,13 @@ Proof.
   match goal with |- COK (with_cd ?s2 _) => set (S2 := s2) end.
   intros k Hk. unfold CompOK, cstof. cbn [cd with_cd]. rewrite tab_spec.
   pose proof Hk as Hk'. apply Nat.ltb_lt in Hk'. rewrite Hk'. cbn [cst].
-  set (S3 := with_cd S2 (upd (cd S2) k (mkCL CNone None))).
-  assert (E : sts (with_cd S2 (tab (nC c) (fun k0 => mkCL (comp_check c (with_cd S2 (upd (cd S2) k0 (mkCL CNone None))) k0) None) (cd S2))) k
-              = sts S3 k) by reflexivity.
+  assert (E : sts (with_cd S2 (tab (nC c) (fun k0 => mkCL (comp_check c S2 k0) None) (cd S2))) k = sts S2 k) by reflexivity.
   rewrite E.
-  assert (Hc : cstof S3 k = CFinished -> forallb is_fin (sts S3 k) = true).
-  { unfold S3, cstof. cbn [cd with_cd]. rewrite upd_same. discriminate. }
-  destruct (comp_check_ok S3 k Hc) as (A & B & D & _). auto.
+  assert (Hc : cstof S2 k = CFinished -> forallb is_fin (sts S2 k) = true).
+  { unfold S2, cstof.
+    rewrite (pi_check_ready c _ cd) by reflexivity. rewrite (pi_update_pert c _ cd) by reflexivity.
+    cbn [cd with_cpl]. rewrite tab_spec, Hk'. discriminate. }
+  destruct (comp_check_ok S2 k Hc) as (A & B & D & _). auto.
 Qed.
 
 Lemma COK_initialize_resume o s : o_init_state o = false -> COK s -> COK (initialize c o s).
